@@ -36,8 +36,8 @@ def model_lines(cases, impl, features, kind="sim"):
             continue
         mem0 = "-"
         for l in blk:
-            if l.startswith("mem "):
-                mem0 = l[4:]
+            if l.startswith("mem0 "):
+                mem0 = l[5:]
                 break
         # the image as loaded, before injections: injections are replayed on the model as well,
         # so strip injected bytes is unnecessary (mem_put is idempotent)
@@ -55,7 +55,7 @@ def model_lines(cases, impl, features, kind="sim"):
 def strip_compiled(blk):
     out = []
     for l in blk:
-        if l.startswith("compiled "):
+        if l.startswith(("compiled ", "mem0 ")):
             continue
         for pre in ("step err ", "run err ", "init err ", "dump err "):
             if l.startswith(pre):
